@@ -12,7 +12,7 @@ use syn::{
 use crate::{
     bound::{Bound, Bounds, WhereClauseBuilder},
     common::BinaryOp,
-    syn_utils::expand_self,
+    syn_utils::{expand_self, ref_operand},
 };
 
 use self::compare_op::{
@@ -201,17 +201,20 @@ fn build_binary_op(
             let field_ty = &field.field.ty;
             let lhs = with_ref(&member(quote!(self), field), lhs_is_ref);
             let rhs = with_ref(&member(quote!(__rhs), field), rhs_is_ref);
-            let lhs_ty = with_ref(field_ty, lhs_is_ref);
-            let rhs_ty = with_ref(field_ty, rhs_is_ref);
+            let lhs_ty = with_ref_ty(field_ty, lhs_is_ref);
+            let rhs_ty = with_ref_ty(field_ty, rhs_is_ref);
             values.push(quote!(<#lhs_ty as #trait_<#rhs_ty>>::#func_name(#lhs, #rhs)));
             field.push_bounds_to(use_bounds, kind, &mut wcb);
         }
         let ctor_args = build_ctor_args(&item.fields, &values);
-        let wheres = wcb.build(|ty| match (lhs_is_ref, rhs_is_ref) {
-            (true, true) => quote!(for<'__a> &'__a #ty : #trait_<&'__a #ty, Output = #ty>),
-            (true, false) => quote!(for<'__a> &'__a #ty : #trait_<#ty, Output = #ty>),
-            (false, true) => quote!(for<'__a> #ty : #trait_<&'__a #ty, Output = #ty>),
-            (false, false) => quote!(#ty : #trait_<#ty, Output = #ty>),
+        let wheres = wcb.build(|ty| {
+            let r = ref_operand(ty);
+            match (lhs_is_ref, rhs_is_ref) {
+                (true, true) => quote!(for<'__a> &'__a #r : #trait_<&'__a #r, Output = #ty>),
+                (true, false) => quote!(for<'__a> &'__a #r : #trait_<#ty, Output = #ty>),
+                (false, true) => quote!(for<'__a> #ty : #trait_<&'__a #r, Output = #ty>),
+                (false, false) => quote!(#ty : #trait_<#ty, Output = #ty>),
+            }
         });
         quote! {
             #[automatically_derived]
@@ -256,12 +259,15 @@ fn build_assign_op(
             let field_ty = &field.field.ty;
             let lhs = member(quote!(self), field);
             let rhs = with_ref(&member(quote!(__rhs), field), rhs_is_ref);
-            let rhs_ty = with_ref(field_ty, rhs_is_ref);
+            let rhs_ty = with_ref_ty(field_ty, rhs_is_ref);
             exprs.push(quote!(<#field_ty as #trait_<#rhs_ty>>::#func_name(&mut #lhs, #rhs)));
             field.push_bounds_to(use_bounds, kind, &mut wcb);
         }
         let wheres = wcb.build(|ty| match rhs_is_ref {
-            true => parse_quote!(for<'__a> #ty : #trait_<&'__a #ty>),
+            true => {
+                let r = ref_operand(ty);
+                parse_quote!(for<'__a> #ty : #trait_<&'__a #r>)
+            }
             false => parse_quote!(#ty : #trait_<#ty>),
         });
         quote! {
@@ -303,13 +309,16 @@ fn build_unary_op(
         for field in fields {
             let field_ty = &field.field.ty;
             let lhs = with_ref(&member(quote!(self), field), lhs_is_ref);
-            let lhs_ty = with_ref(field_ty, lhs_is_ref);
+            let lhs_ty = with_ref_ty(field_ty, lhs_is_ref);
             values.push(quote!(<#lhs_ty as #trait_>::#func_name(#lhs)));
             field.push_bounds_to(use_bounds, kind, &mut wcb);
         }
         let ctor_args = build_ctor_args(&item.fields, &values);
         let wheres = wcb.build(|ty| match lhs_is_ref {
-            true => quote!(for<'__a> &'__a #ty : #trait_<Output = #ty>),
+            true => {
+                let r = ref_operand(ty);
+                quote!(for<'__a> &'__a #r : #trait_<Output = #ty>)
+            }
             false => quote!(#ty : #trait_<Output = #ty>),
         });
         quote! {
@@ -801,16 +810,18 @@ fn build_deref_for_struct(
 
     let content = match kind {
         DeriveItemKind::Deref => {
+            let r = ref_operand(target_ty);
             quote! {
                 type Target = #target_ty;
-                fn deref(&self) -> & #target_ty {
+                fn deref(&self) -> & #r {
                     &self.#member
                 }
             }
         }
         DeriveItemKind::DerefMut => {
+            let r = ref_operand(target_ty);
             quote! {
-                fn deref_mut(&mut self) -> &mut #target_ty {
+                fn deref_mut(&mut self) -> &mut #r {
                     &mut self.#member
                 }
             }
@@ -828,6 +839,14 @@ fn build_deref_for_struct(
     })
 }
 
+fn with_ref_ty(ty: &Type, is_ref: bool) -> TokenStream {
+    if is_ref {
+        let ty = ref_operand(ty);
+        quote!(&#ty)
+    } else {
+        quote!(#ty)
+    }
+}
 fn with_ref(source: &impl ToTokens, is_ref: bool) -> TokenStream {
     if is_ref {
         quote!(&#source)
